@@ -1,3 +1,4 @@
+import Unimock.Generated.Typestate
 import Unimock.Lemmas.Actions
 import Unimock.Props.C02
 import Unimock.Props.C17
@@ -415,5 +416,29 @@ theorem C12_nonclone_segment_is_single_use {ρ : Type} (v : ρ) (e : Entry) (cs 
             cases x <;> simp at hs
             obtain ⟨t, _, rfl⟩ := hs
             exact ⟨_, t, rfl, by simp [Segment.stored]⟩
+
+/-! ### the compile-time refusal as the source's signatures have it (`Generated/Typestate.lean`, re-translated on every run) -/
+section SourceTypestate
+open Typestate
+
+/-- `QuantifyReturnValue::n_times`, `::at_least_times` and `DefineMultipleResponses::returns` carry the bound
+    `T: IntoReturn<..>` (the value must be `Clone`); `DefineResponse::returns` and `QuantifyReturnValue::once` do not -/
+theorem C12_source_clone_bounds :
+    (Generated.sigTable.lookup (2, 3)).map (·.needClone) = some true ∧
+    (Generated.sigTable.lookup (2, 4)).map (·.needClone) = some true ∧
+    (Generated.sigTable.lookup (1, 0)).map (·.needClone) = some true ∧
+    (Generated.sigTable.lookup (2, 2)).map (·.needClone) = some false ∧
+    (Generated.sigTable.lookup (0, 0)).map (·.needClone) = some false := by decide
+
+/-- hence, by the signatures alone: a non-`Clone` value cannot be given a count other than `once`, nor be the response of an
+    `each_call` / `stub` / `then` continuation — for either ordering -/
+theorem C12_source_nonclone_refused (o : Typestate.Ord) :
+    stepOf Generated.sigTable Generated.ordKind Generated.repKind (.quantifyRV o false) .nTimes = none ∧
+    stepOf Generated.sigTable Generated.ordKind Generated.repKind (.quantifyRV o false) .atLeastTimes = none ∧
+    stepOf Generated.sigTable Generated.ordKind Generated.repKind (.defineMulti o) (.returns false) = none ∧
+    stepOf Generated.sigTable Generated.ordKind Generated.repKind (.quantifyRV o false) .once = some (.quantified o .exact) := by
+  cases o <;> decide
+
+end SourceTypestate
 
 end Unimock
